@@ -48,6 +48,15 @@ CHECKS = {
         "Distinct priorities per actor; ties between two equally near admissible values accept both; preference 0 accepts 0.",
         "DESIGN.md section 3 C04",
     ),
+    "C09": (
+        "Hypothesis model-based testing: update/query histories against a sliding dict model, invariant after every step (list, numpy and MovingWindow containers)",
+        "Operation histories (in/out of order, off-grid timestamps, gaps, jumps beyond capacity, None/NaN, index and unaligned "
+        "datetime queries) are applied to the real buffer and to a dict model; counts, gap slot sets, oldest/newest and every "
+        "query result are compared after every step. Exploration level.",
+        "Unique stored values make stale or shifted data recognisable; at exact half-slot ties at both query ends one extra "
+        "slot is tolerated (documented half-to-even rounding); MovingWindow is not sent samples older than its window.",
+        "DESIGN.md section 3 C09",
+    ),
     "C15": (
         "Hypothesis PBT with injected per-call API faults (5 outcomes per set_power call, all 5^n vectors for small n): accounting identities against recorded calls",
         "Real BatteryManager and PVManager on a fake API whose every set_power call returns, is rejected, errors, raises or "
